@@ -472,7 +472,7 @@ def run(ctx: vlib.Ctx):
     # the seal theorems take "a change of content changes the emitted text" as a hypothesis about the emitter; the text
     # engine proves it for flat documents, block trees, META, sections and list values (C15_*_emit_injective): build and audit those modules too
     ctx.translate("text")
-    ctx.lean("text", ["Octave.Props.C01roundtrip", "Octave.Props.C01tree", "Octave.Props.C01meta", "Octave.Props.C01sections", "Octave.Props.C01lists", "Octave.Props.C01ctree", "Octave.Props.C01unified", "Octave.Props.C01document", "Octave.Props.C01master", "Octave.Props.C01maps", "Octave.Props.C01nested", "Octave.Props.C04metanum"], extra_targets=())
+    ctx.lean("text", ["Octave.Props.C01roundtrip", "Octave.Props.C01tree", "Octave.Props.C01meta", "Octave.Props.C01sections", "Octave.Props.C01lists", "Octave.Props.C01ctree", "Octave.Props.C01unified", "Octave.Props.C01document", "Octave.Props.C01master", "Octave.Props.C01maps", "Octave.Props.C01nested", "Octave.Props.C04metanum", "Octave.Props.C15orphantree"], extra_targets=())
     changed = vlib.fingerprints_changed(ctx.prop, ANCHORS)
     if changed:
         ctx.widen = max(ctx.widen, 8)
